@@ -716,6 +716,9 @@ func (sc *specCtx) call(x *ast.CallExpr, subs map[string]SpecExpr) Value {
 	case "bytes": // bytes(slice): abstract byte string of a []byte
 		v := arg(0)
 		return sc.bytesOf(v)
+	case "pow2": // pow2(k) = 2^k (the function used for 1 << k)
+		f := u.d.Fun("pow2", []Sort{SInt}, SInt)
+		return intV(App(f, SInt, arg(0).term()))
 	case "base": // base(s): identity of the backing array of slice s
 		v := arg(0)
 		if !v.isSlice() {
